@@ -1133,6 +1133,59 @@ def check_reentry(acc):
                         acc.violation({"oracle": "call_made_from_a_callback_gives_what_it_gives_alone", "inner": name.split("(")[0]}, {"case": case, "observed": repr(inner)[:400], "expected": repr(alone)[:400]})
 
 
+def check_same_instance_in_flight(acc, bases=None):
+    """Two passes in flight on ONE middleware instance (user block middlewares and user subclasses of shipped ones - the
+    shipped block middlewares declare allow_parallel_execution): while the outer pass is at its k-th entry, the hook runs the
+    same instance over another library, inline or in a second thread.  Each pass returns its own library's blocks."""
+    import threading
+
+    def make(base, inplace):
+        class SelfReentering(base):
+            def __init__(self):
+                super().__init__(allow_inplace_modification=inplace)
+                self.at, self.other, self.threaded, self.inner, self.seen = None, None, False, [], 0
+
+            def transform_entry(self, entry, library):
+                n, self.seen = self.seen, self.seen + 1
+                if self.at is not None and n == self.at:
+                    self.at = None
+                    run = lambda: self.inner.append(attempt(lambda: self.sig(self.transform(self.other()))))
+                    if self.threaded:
+                        t = threading.Thread(target=run)
+                        t.start()
+                        t.join()
+                    else:
+                        run()
+                r = super().transform_entry(entry, library)
+                return r
+
+        return SelfReentering
+
+    outer_text = "@a{o1, month = jan, x = 1}\n% c\n@a{o2, month = 2, y = 2}\n@string{s = {v}}\n@a{o3, month = mar}\n"
+    inner_text = "@b{i1, month = 11}\n@b{i2, month = dec, z = 3}\n@comment{ic}\n"
+    sig = lambda lib: [(type(b).__name__, getattr(b, "key", None), [(f.key, f.value) for f in getattr(b, "fields", [])]) for b in lib.blocks]
+    bases = bases or {"user block middleware": BlockMiddleware, "MonthIntMiddleware": mw.MonthIntMiddleware, "NormalizeFieldKeys": mw.NormalizeFieldKeys, "RemoveEnclosingMiddleware": mw.RemoveEnclosingMiddleware}
+    for bname, base in bases.items():
+        for inplace in (True, False):
+            cls = make(base, inplace)
+            plain = lambda text: attempt(lambda: sig(cls().transform(Splitter(text).split())))
+            exp_outer, exp_inner = plain(outer_text), plain(inner_text)
+            for at in (0, 1, 2):
+                for threaded in (False, True):
+                    case = {"same_instance_in_flight": bname, "inplace": inplace, "at_entry": at, "in_another_thread": threaded}
+                    acc.trace(2)
+                    acc.case(nontrivial_key=("same-instance", bname, inplace, at, threaded))
+                    acc.count("same_instance_passes_in_flight")
+                    m = cls()
+                    m.at, m.threaded, m.other, m.sig = at, threaded, (lambda: Splitter(inner_text).split()), sig
+                    got = attempt(lambda: sig(m.transform(Splitter(outer_text).split())))
+                    acc.step(("same instance", bname, inplace), ("inner at", at, threaded), hash(repr(got)))
+                    if got != exp_outer:
+                        acc.violation({"oracle": "outer_pass_unaffected_by_a_pass_in_flight_on_the_same_instance", "base": bname}, {"case": case, "observed": repr(got)[:400], "expected": repr(exp_outer)[:400]})
+                    elif not m.inner or m.inner[0] != exp_inner:
+                        acc.violation({"oracle": "inner_pass_in_flight_equals_pass_alone", "base": bname}, {"case": case, "observed": repr(m.inner[:1])[:400], "expected": repr(exp_inner)[:400]})
+
+
 def check_shared_parts(acc):
     """Libraries built in code whose entries share a Field object (or whose blocks occur twice): write_string equals the
     prepended stack, then the default write stack, then the writer - on such a library like on any other."""
@@ -1196,6 +1249,7 @@ def run_shard(shard, tier, acc):
         return check_bigpass(shard[1], acc)
     if shard[0] == "reentry":
         check_shared_parts(acc)
+        check_same_instance_in_flight(acc)
         return check_reentry(acc)
     with tempfile.TemporaryDirectory(prefix="verif-c20-") as tmpdir:
         if shard[0] == "stacks":
@@ -1239,6 +1293,8 @@ def replay(case, acc):
             check_reentry(acc)
         elif "shared_parts" in case:
             check_shared_parts(acc)
+        elif "same_instance_in_flight" in case:
+            check_same_instance_in_flight(acc)
         elif "failure" in case or "parse_failure" in case:
             check_failures(acc, tmpdir)
         elif "illegal" in case:
